@@ -70,7 +70,13 @@ fn main() {
         let v: serde_json::Value = serde_json::from_str(&std::fs::read_to_string(path).unwrap_or_else(|_| usage())).unwrap_or_else(|_| usage());
         let id = v["property"].as_str().unwrap_or("").to_string();
         let section = v["section"].as_str().unwrap_or("").to_string();
-        let case = if v["case"].is_null() && v["bytes_hex"].is_string() { serde_json::json!({"__bytes": v["bytes_hex"]}) } else { v["case"].clone() };
+        let case = if v["case"].is_null() && v["bytes_hex"].is_string() {
+            serde_json::json!({"__bytes": v["bytes_hex"]})
+        } else if v["case"].is_null() && v["enum"].is_object() {
+            serde_json::json!({"__enum": v["enum"]})
+        } else {
+            v["case"].clone()
+        };
         std::process::exit(run(&id, Tier::Quick, Some((section, case))));
     }
     let mut tier = match std::env::var("VERIF_TIER").as_deref() {
